@@ -179,25 +179,28 @@ pub fn judge(target_idx: &[usize], scratch: &Scratch, n: &AtomicU64) -> Vec<Viol
 /// Stitched case: a complete version holds a directory `l0` with a file; the next version, in
 /// which `l0` has become a symlink leading outside, is interrupted at every crash point; the
 /// interrupted version is restored.
-pub fn judge_stitched(target_idx: usize, scratch: &Scratch, n: &AtomicU64) -> Vec<Violation> {
+pub fn judge_stitched(target_idx: usize, name_idx: usize, scratch: &Scratch, n: &AtomicU64) -> Vec<Violation> {
     let mut v = Vec::new();
+    // the directory that becomes a symlink: an ASCII name, and one with a multi-byte character
+    // (byte lengths and character counts differ)
+    let l0 = STITCH_NAMES[name_idx];
     let sandbox = scratch.fresh("sb");
     tree::materialize(&sentinels(), &sandbox);
     let abs = sandbox.to_string_lossy().into_owned();
     let target = TARGETS[target_idx].replace("@ABS@", &abs);
     let mut t0 = empty_tree();
-    t0.insert("l0".into(), Node::dir(T0 + 1));
-    t0.insert("l0/inner".into(), Node::file(b"overwritten?", T0 + 2).with_mode(0o666).with_owner(2, 2));
-    t0.insert("l0/newfile".into(), Node::file(b"created?", T0 + 3));
+    t0.insert(l0.into(), Node::dir(T0 + 1));
+    t0.insert(format!("{l0}/inner"), Node::file(b"overwritten?", T0 + 2).with_mode(0o666).with_owner(2, 2));
+    t0.insert(format!("{l0}/newfile"), Node::file(b"created?", T0 + 3));
     // nested entries: two and three levels below the directory that becomes a symlink
-    t0.insert("l0/sub".into(), Node::dir(T0 + 5).with_mode(0o777).with_owner(2, 1));
-    t0.insert("l0/sub/deep".into(), Node::file(b"overwritten deep?", T0 + 6).with_mode(0o666));
-    t0.insert("l0/sub/newdir".into(), Node::dir(T0 + 7));
-    t0.insert("l0/sub/newdir/leaf".into(), Node::file(b"leaf?", T0 + 8));
-    t0.insert("l0/sub/sl".into(), Node::symlink("deep", T0 + 9));
+    t0.insert(format!("{l0}/sub"), Node::dir(T0 + 5).with_mode(0o777).with_owner(2, 1));
+    t0.insert(format!("{l0}/sub/deep"), Node::file(b"overwritten deep?", T0 + 6).with_mode(0o666));
+    t0.insert(format!("{l0}/sub/newdir"), Node::dir(T0 + 7));
+    t0.insert(format!("{l0}/sub/newdir/leaf"), Node::file(b"leaf?", T0 + 8));
+    t0.insert(format!("{l0}/sub/sl"), Node::symlink("deep", T0 + 9));
     t0.insert("zz".into(), Node::file(b"zz", T0 + 4));
     let mut t1 = empty_tree();
-    t1.insert("l0".into(), Node::symlink(&target, T0 + 11));
+    t1.insert(l0.into(), Node::symlink(&target, T0 + 11));
     // other symlinks that sort between /l0 and the old entries below it, and before it
     t1.insert("k".into(), Node::symlink("zz", T0 + 12));
     t1.insert("m".into(), Node::symlink("zz", T0 + 13));
@@ -239,7 +242,7 @@ pub fn judge_stitched(target_idx: usize, scratch: &Scratch, n: &AtomicU64) -> Ve
         let ro = run::do_restore(&a2, &dest, &RestoreArgs::band(1), run::NOHOOK, Flavor::Current);
         n.fetch_add(1, AO::Relaxed);
         let at = format!(
-            "b0 has directory /l0 with files; b1 (l0 -> {target:?}) interrupted before {}; restore of b1: {}",
+            "b0 has directory /{l0} with files; b1 ({l0} -> {target:?}) interrupted before {}; restore of b1: {}",
             r.brief(),
             ro.describe()
         );
@@ -270,6 +273,8 @@ pub fn judge_stitched(target_idx: usize, scratch: &Scratch, n: &AtomicU64) -> Ve
     v
 }
 
+pub const STITCH_NAMES: [&str; 2] = ["l0", "lé"];
+
 fn tuples(max_len: usize) -> Vec<Vec<usize>> {
     let mut out: Vec<Vec<usize>> = Vec::new();
     let mut frontier: Vec<Vec<usize>> = vec![vec![]];
@@ -294,15 +299,17 @@ pub fn run(report: &Report, budget: &Budget) {
     let scratches: Vec<Scratch> = (0..crate::util::n_workers()).map(|_| Scratch::new("c16")).collect();
     let n = AtomicU64::new(0);
     let ns = AtomicU64::new(0);
-    let total = cases.len() + TARGETS.len();
+    let n_st = TARGETS.len() * STITCH_NAMES.len();
+    let total = cases.len() + n_st;
     let done = par_for(total, budget, |w, i| {
-        if i < TARGETS.len() {
-            let _g = announce(w, || format!("C16 stitched target {}", TARGETS[i]));
-            for v in judge_stitched(i, &scratches[w], &ns) {
-                report.violation(&v, &json!({"kind": "c16-stitched", "target": i}));
+        if i < n_st {
+            let (ti, ni) = (i % TARGETS.len(), i / TARGETS.len());
+            let _g = announce(w, || format!("C16 stitched target {} name {}", TARGETS[ti], STITCH_NAMES[ni]));
+            for v in judge_stitched(ti, ni, &scratches[w], &ns) {
+                report.violation(&v, &json!({"kind": "c16-stitched", "target": ti, "name": ni}));
             }
         } else {
-            let c = &cases[i - TARGETS.len()];
+            let c = &cases[i - n_st];
             let _g = announce(w, || format!("C16 targets {c:?}"));
             for v in judge(c, &scratches[w], &n) {
                 report.violation(&v, &json!({"kind": "c16", "targets": c}));
@@ -328,7 +335,7 @@ pub fn replay(case: &Value) -> Vec<Violation> {
     let scratch = Scratch::new("replay");
     let n = AtomicU64::new(0);
     if case["kind"] == json!("c16-stitched") {
-        judge_stitched(case["target"].as_u64().unwrap() as usize, &scratch, &n)
+        judge_stitched(case["target"].as_u64().unwrap() as usize, case["name"].as_u64().unwrap_or(0) as usize, &scratch, &n)
     } else {
         let t: Vec<usize> = case["targets"].as_array().unwrap().iter().map(|x| x.as_u64().unwrap() as usize).collect();
         judge(&t, &scratch, &n)
